@@ -1,7 +1,7 @@
 #!/usr/bin/env python3
 """(author only) package the seeded changes written by sub-agents into /verif/seeded/<id>/.
 
-Inputs: /tmp/seeded/<Cxx>/<i>/ (round 1: i = 1, 2) /tmp/seeded2/<Cxx>/<i-2>/ (round 2: i = 3, 4) and /tmp/seeded3/<Cxx>/<i-4>/ (round 3: i = 5, 6; sources that are gone keep their packaged directory) {patch.diff, *_test.go, README.md, confirm.log}, /tmp/onrepo.log
+Inputs: /tmp/seeded/<Cxx>/<i>/ (round 1: i = 1, 2) /tmp/seeded2/<Cxx>/<i-2>/ (round 2: i = 3, 4) and /tmp/seeded3/<Cxx>/<i-4>/ (round 3: i = 5, 6) and /tmp/seeded4/<Cxx>/<i-6>/ (round 4: i = 7, 8; sources that are gone keep their packaged directory) {patch.diff, *_test.go, README.md, confirm.log}, /tmp/onrepo.log
 (results of tools/test_seeded_on_repo.sh) and tools/seeded_table.py."""
 import glob, json, os, re, shutil
 
@@ -21,7 +21,7 @@ if os.path.exists('/tmp/onrepo.log'):
 rows = []
 for key, v in sorted(SEEDED.items()):
     prop, i = key.split('-')
-    src = f'/tmp/seeded/{prop}/{i}' if int(i) <= 2 else (f'/tmp/seeded2/{prop}/{int(i) - 2}' if int(i) <= 4 else f'/tmp/seeded3/{prop}/{int(i) - 4}')
+    src = f'/tmp/seeded/{prop}/{i}' if int(i) <= 2 else (f'/tmp/seeded2/{prop}/{int(i) - 2}' if int(i) <= 4 else (f'/tmp/seeded3/{prop}/{int(i) - 4}' if int(i) <= 6 else f'/tmp/seeded4/{prop}/{int(i) - 6}'))
     if not os.path.exists(f'{src}/patch.diff'):
         if os.path.exists(f'/verif/seeded/{key}/meta.json'):
             m = json.load(open(f'/verif/seeded/{key}/meta.json'))
